@@ -122,6 +122,8 @@ def main(argv=None) -> int:
     # how the analysed tree relates to the reviewed reference snapshot (hsa/align.py, hsa/equiv.py)
     norm = {f"{n}.{q}": e for n, m in repo.modules.items() for q, e in m.normalised.items()}
     norm.update({k: {"<renamed function>": v} for k, v in getattr(repo, "renamed_functions", {}).items()})
+    for i, line in enumerate(getattr(repo, "erased", [])):
+        norm[f"<data holder {i}>"] = {"<new NamedTuple>": line}
     extra["reference_alignment"] = {
         "functions_differing_from_reference_and_normalised": len(norm),
         "functions_proved_equivalent_to_reference_by_path_summary": sum(1 for e in norm.values() if "<equivalent to reference>" in e),
